@@ -78,45 +78,51 @@ fn read(tt: &TranspositionTable, k: u64) -> Option<Ent> {
     })
 }
 
-/// Observational model.  The statement allows a lookup to return nothing at any time (a table may
-/// forget), so the model is not "a map that never loses anything" but the last OBSERVED content per
-/// key, and the rules are exactly the statement's:
-///  * a key never stored has nothing; nothing is ever returned under a key other than its own;
-///  * between two stores to k, retrieve(k) is what was last observed for k, or nothing — and once
-///    nothing, it stays nothing (no resurrection, no invention);
-///  * store(k, new) when k holds nothing or an entry with depth <= new.depth: retrieve(k) right
-///    afterwards is exactly `new` (an equal or deeper result does replace);
-///  * store(k, new) when k holds a deeper entry: retrieve(k) right afterwards is still that deeper
-///    entry (or nothing) — never `new`.
+#[derive(Clone, Debug)]
+enum Op {
+    Store { key: u64, eval: i32, mv: Option<(u8, u8, u8, u8)>, depth: u8, bound: u8 },
+    Retrieve { key: u64 },
+}
+
+fn op_json(o: &Op) -> Value {
+    match o {
+        Op::Store { key, eval, mv, depth, bound } => json!({"op": "store", "key": format!("{:016x}", key), "eval": eval, "depth": depth, "bound": bound, "move": mv.map(|m| vec![m.0, m.1, m.2, m.3])}),
+        Op::Retrieve { key } => json!({"op": "retrieve", "key": format!("{:016x}", key)}),
+    }
+}
+
+fn op_from_json(v: &Value) -> Option<Op> {
+    let key = u64::from_str_radix(v.get("key")?.as_str()?, 16).ok()?;
+    match v.get("op")?.as_str()? {
+        "retrieve" => Some(Op::Retrieve { key }),
+        "store" => {
+            let mv = v.get("move").and_then(|m| m.as_array()).and_then(|a| if a.len() == 4 { Some((a[0].as_u64()? as u8, a[1].as_u64()? as u8, a[2].as_u64()? as u8, a[3].as_u64()? as u8)) } else { None });
+            Some(Op::Store { key, eval: v.get("eval")?.as_i64()? as i32, mv, depth: v.get("depth")?.as_u64()? as u8, bound: v.get("bound")?.as_u64()? as u8 })
+        }
+        _ => None,
+    }
+}
+
 fn check(bytes: &[u8], stats: &mut Stats) -> Verdict {
     let mut s = Src::new(bytes);
     let hot = gen_universe(&mut s);
     let never: Vec<u64> = (0..4).map(|i| hot[0].rotate_left(7 * (i + 1)) ^ 0xa5a5_5a5a_dead_beef ^ i as u64).filter(|k| !hot.contains(k)).collect();
     let nops = s.below(401);
-    let mut tt = TranspositionTable::new();
-    let mut obs: HashMap<u64, Option<Ent>> = HashMap::new();
-    let mut stored_ever: Vec<u64> = Vec::new();
+    // depth of the entry a never-forgetting table would hold (used only to aim generated depths)
+    let mut shadow: HashMap<u64, u8> = HashMap::new();
     let mut last_depth: u8 = s.u8();
-    let mut log: Vec<Value> = Vec::new();
-    let (mut saw_reject, mut saw_equal_accept) = (false, false);
-    let mut forgotten = 0u64;
-    let mut ophash = 0u64;
-    let fail = |sig: &str, opi: usize, k: u64, got: &Option<Ent>, want: String, log: &Vec<Value>| {
-        let tail: Vec<Value> = log.iter().rev().take(12).rev().cloned().collect();
-        Failure::new(sig, json!({"after_op": opi, "probe_key": format!("{:016x}", k), "got": format!("{:?}", got), "allowed": want, "last_ops": tail, "ops_total": log.len()}))
-    };
-    for opi in 0..nops {
+    let mut ops: Vec<Op> = Vec::new();
+    for _ in 0..nops {
         let key = if s.chance(88) { hot[s.below(hot.len())] } else { s.u64() };
         if never.contains(&key) {
             continue;
         }
-        let is_store = s.chance(65);
-        if is_store {
+        if s.chance(65) {
             let depth = match s.below(6) {
                 0 => last_depth,
                 1 => last_depth.wrapping_add(1),
                 2 => last_depth.wrapping_sub(1),
-                3 => obs.get(&key).copied().flatten().map(|e| e.depth).unwrap_or(0),
+                3 => shadow.get(&key).copied().unwrap_or(0),
                 4 => *s.pick(&[0u8, 1, 254, 255]),
                 _ => s.u8(),
             };
@@ -129,6 +135,49 @@ fn check(bytes: &[u8], stats: &mut Stats) -> Verdict {
             };
             let mv = if s.chance(80) { Some((s.below(64) as u8, s.below(64) as u8, s.below(6) as u8, s.below(5) as u8)) } else { None };
             let b = s.below(3) as u8;
+            if shadow.get(&key).map_or(true, |d| *d <= depth) {
+                shadow.insert(key, depth);
+            }
+            ops.push(Op::Store { key, eval, mv, depth, bound: b });
+        } else {
+            ops.push(Op::Retrieve { key });
+        }
+    }
+    judge_ops(&hot, &never, &ops, stats)
+}
+
+/// Observational model.  The statement allows a lookup to return nothing at any time (a table may
+/// forget), so the model is not "a map that never loses anything" but the last OBSERVED content per
+/// key, and the rules are exactly the statement's:
+///  * a key never stored has nothing; nothing is ever returned under a key other than its own;
+///  * between two stores to k, retrieve(k) is what was last observed for k, or nothing — and once
+///    nothing, it stays nothing (no resurrection, no invention);
+///  * store(k, new) when k holds nothing or an entry with depth <= new.depth: retrieve(k) right
+///    afterwards is exactly `new` (an equal or deeper result does replace);
+///  * store(k, new) when k holds a deeper entry: retrieve(k) right afterwards is still that deeper
+///    entry (or nothing) — never `new`.
+fn judge_ops(hot: &[u64], never: &[u64], ops: &[Op], stats: &mut Stats) -> Verdict {
+    let mut tt = TranspositionTable::new();
+    let mut obs: HashMap<u64, Option<Ent>> = HashMap::new();
+    let mut stored_ever: Vec<u64> = Vec::new();
+    let mut log: Vec<Value> = Vec::new();
+    let (mut saw_reject, mut saw_equal_accept) = (false, false);
+    let mut forgotten = 0u64;
+    let mut ophash = 0u64;
+    let fail = |sig: &str, opi: usize, k: u64, got: &Option<Ent>, want: String, log: &Vec<Value>| {
+        let tail: Vec<Value> = log.iter().rev().take(12).rev().cloned().collect();
+        Failure::new(
+            sig,
+            json!({"after_op": opi, "probe_key": format!("{:016x}", k), "got": format!("{:?}", got), "allowed": want, "last_ops": tail, "ops_total": log.len(),
+                   "replay": {"hot_keys": hot.iter().map(|k| format!("{:016x}", k)).collect::<Vec<_>>(), "never_stored_keys": never.iter().map(|k| format!("{:016x}", k)).collect::<Vec<_>>(), "ops": log}}),
+        )
+    };
+    for (opi, op) in ops.iter().enumerate() {
+        let key = match op {
+            Op::Store { key, .. } | Op::Retrieve { key } => *key,
+        };
+        log.push(op_json(op));
+        if let Op::Store { key, eval, mv, depth, bound: b } = op.clone() {
             let emv = mv.map(|(f, t, p, mt)| Move::new(f, t, piece(p), mtype(mt)));
             // what the table holds for this key right now
             let pre = read(&tt, key);
@@ -139,7 +188,6 @@ fn check(bytes: &[u8], stats: &mut Stats) -> Verdict {
             }
             tt.store(key, eval, emv, depth, bound(b));
             let new = Ent { key, eval, mv, depth, bound: b };
-            log.push(json!({"op": "store", "key": format!("{:016x}", key), "eval": eval, "depth": depth, "bound": b, "move": format!("{:?}", mv)}));
             ophash = hash_of(&(ophash, 1u8, key, eval, depth, b, mv));
             let post = read(&tt, key);
             match pre {
@@ -173,14 +221,13 @@ fn check(bytes: &[u8], stats: &mut Stats) -> Verdict {
                 stored_ever.push(key);
             }
         } else {
-            log.push(json!({"op": "retrieve", "key": format!("{:016x}", key)}));
             ophash = hash_of(&(ophash, 2u8, key));
         }
         stats.eval();
         // after every op: the op's key, all hot keys, the never-stored keys
         let mut probe: Vec<u64> = vec![key];
-        probe.extend_from_slice(&hot);
-        probe.extend_from_slice(&never);
+        probe.extend_from_slice(hot);
+        probe.extend_from_slice(never);
         for k in probe {
             let got = read(&tt, k);
             let before = obs.get(&k).copied().flatten();
@@ -250,6 +297,14 @@ pub fn run(tier: Tier, seed: u64, known: &Known) -> PropRun {
     run
 }
 
-pub fn replay(_part: &str, bytes: &[u8], _case: &Value, stats: &mut Stats) -> Verdict {
+pub fn replay(_part: &str, bytes: &[u8], case: &Value, stats: &mut Stats) -> Verdict {
+    // structural replay: the saved op list
+    if let Some(r) = case.get("replay") {
+        let keys = |k: &str| -> Vec<u64> { r.get(k).and_then(|x| x.as_array()).map(|a| a.iter().filter_map(|v| v.as_str().and_then(|s| u64::from_str_radix(s, 16).ok())).collect()).unwrap_or_default() };
+        if let Some(ops) = r.get("ops").and_then(|x| x.as_array()) {
+            let ops: Vec<Op> = ops.iter().filter_map(op_from_json).collect();
+            return judge_ops(&keys("hot_keys"), &keys("never_stored_keys"), &ops, stats);
+        }
+    }
     check(bytes, stats)
 }
